@@ -354,7 +354,17 @@ class model_parse(Contract):
                                                        Not(cx.it.truth(ignore_critical)))}
 
     def use_contract_at(c, it, args, kwargs):
-        return False
+        return True
+
+    def apply_at(c, cx, p, node, site):
+        """call sites with a SHIPPED class: the summary in contracts/parse_summary.py"""
+        from contracts.parse_summary import parse_model
+        cls, wire, markers = p['cls'], p['wire'], p.get('markers')
+        if isinstance(cls, AbsClass):
+            raise Unsupported('nested abstract parse')
+        if not isinstance(wire, View):
+            cx.it.raise_(TypeError, 'a bytes-like object is required', node=node)
+        return parse_model(cx.it, cls, wire, markers if markers is not None else {}, node)
 
     def post(c, cx, result, cls, wire, markers, ignore_critical):
         return {'returns_instance': isinstance(result, AbsInstance)}
